@@ -85,6 +85,8 @@ func cmdRun(args []string) {
 	permute := fs.Bool("permute", false, "all map iteration orders")
 	witness := fs.Bool("witness", false, "model per completed path")
 	smtlog := fs.String("smtlog", "", "log solver input")
+	maxpaths := fs.Int("maxpaths", 0, "path budget")
+	maxsteps := fs.Int("maxsteps", 0, "step budget per path")
 	var params multiFlag
 	fs.Var(&params, "param", "k=v")
 	fs.Parse(args)
@@ -112,6 +114,12 @@ func cmdRun(args []string) {
 	opts.Trace = *trace
 	opts.Permute = *permute
 	opts.Witness = *witness
+	if *maxpaths > 0 {
+		opts.MaxPaths = *maxpaths
+	}
+	if *maxsteps > 0 {
+		opts.MaxSteps = *maxsteps
+	}
 	sol, err := NewSolver(*solver, opts.TimeoutMs)
 	if err != nil {
 		fmt.Fprintln(os.Stderr, err)
